@@ -65,9 +65,8 @@ spec fn reduced(x: Fr) -> bool { val4(x.0) < q() }
 proof fn lemma_q_bounds()
     ensures 0 < q(), 2 * q() < r256(),
 {
-    assert(2 * ival4(0xd097_0e5e_d6f7_2cb7, 0xa668_2093_ccc8_1082, 0x0667_3b01_0134_3b00, 0x0e7d_b4ea_6533_afa9)
-        < 0x1_0000_0000_0000_0000int * 0x1_0000_0000_0000_0000int * 0x1_0000_0000_0000_0000int * 0x1_0000_0000_0000_0000int) by (compute_only);
-    assert(q() == ival4(MODULUS_LIMBS[0] as int, MODULUS_LIMBS[1] as int, MODULUS_LIMBS[2] as int, MODULUS_LIMBS[3] as int));
+    // evaluated on the extracted modulus limbs
+    assert(0 < q() && 2 * q() < r256()) by (compute_only);
 }
 
 proof fn lemma_val4_bound(a: [u64; 4])
